@@ -1,6 +1,6 @@
 #!/bin/sh
 # usage: tools/seed_confirm.sh <PROP> <n>   -- confirms a sub-agent's seeded change in its scratch worktree and files it under seeded/
-P="$1"; N="$2"; WT=/tmp/wt-$P; OUT=/tmp/out-$P
+P="$1"; N="$2"; T="${3:-$N}"; WT=/tmp/${WTPFX:-wt}-$P; OUT=/tmp/${OUTPFX:-out}-$P
 DEMO=$(ls $OUT/demo$N*.py 2>/dev/null | head -1)
 [ -f "$OUT/change$N.diff" ] && [ -n "$DEMO" ] || { echo "missing deliverables"; exit 2; }
 cd $WT || exit 2
@@ -10,9 +10,9 @@ SUITE=$(PYTHONPATH=$WT timeout 600 /venv/bin/python -m pytest -q -p no:cacheprov
 (cd $WT && PYTHONPATH=$WT timeout 300 /venv/bin/python "$DEMO" >/tmp/demo-with.log 2>&1); WITH=$?
 git checkout -q -- .
 (cd $WT && PYTHONPATH=$WT timeout 300 /venv/bin/python "$DEMO" >/tmp/demo-without.log 2>&1); WITHOUT=$?
-echo "$P-$N suite: $SUITE | demo with change exit=$WITH | demo pristine exit=$WITHOUT"
+echo "$P-$T suite: $SUITE | demo with change exit=$WITH | demo pristine exit=$WITHOUT"
 if [ "$WITH" != 0 ] && [ "$WITHOUT" = 0 ] && echo "$SUITE" | grep -q "1 failed, 142 passed"; then
-  D=/verif/seeded/$P-$N; mkdir -p $D
+  D=/verif/seeded/$P-$T; mkdir -p $D
   cp "$OUT/change$N.diff" $D/patch.diff; cp "$DEMO" $D/; [ -f $OUT/notes$N.md ] && cp $OUT/notes$N.md $D/notes.md
   echo "CONFIRMED -> $D"
 else
